@@ -12,7 +12,7 @@ from .engine import Ctx, Path, PathEnd, Return_, Break_, Continue_, PyRaise, PyO
 from .stmts import Exec
 from . import extract
 
-ALLOWED_DECORATORS = {'classmethod', 'staticmethod', 'property', 'contextmanager'}
+ALLOWED_DECORATORS = {'classmethod', 'staticmethod', 'property', 'contextmanager', 'receiver'}
 MAX_PATHS = int(os.environ.get('PYVC_MAX_PATHS', '4000'))
 TIMEOUT_MS = int(os.environ.get('PYVC_TIMEOUT_MS', '20000'))
 
